@@ -245,6 +245,9 @@ var durs = []int64{0, 5, 10, 20, 30}
 
 func genList(g *rng, pool int) []int {
 	n := 1 + g.intn(4)
+	if pool > 10 { // occasionally long endpoint lists (sizes beyond small buffers and byte-sized indices)
+		n = pool/2 + g.intn(pool/2)
+	}
 	if g.intn(12) == 0 {
 		n = 0
 	}
@@ -270,6 +273,9 @@ func genList(g *rng, pool int) []int {
 // timers are due, so it runs the operations as it generates them.
 func (r *runner) genAndRun(g *rng, maxOps int) {
 	pool := 2 + g.intn(5)
+	if g.intn(50) == 0 {
+		pool = 20 + g.intn(280)
+	}
 	h0 := meOp{kind: 'H', a: g.pick(durs), b: g.pick(durs), ids: genList(g, pool)}
 	if g.intn(40) == 0 {
 		h0.a = -5
